@@ -76,9 +76,10 @@ var c19Leaves = []string{
 	"not a url",         // plain text
 	"/relative/x.png",   // no host: not an absolute URL
 	`["http://e.f/y"]`,  // JSON embedded in a string
+	`{"u":"http:\/\/g.h\/z"}`, // embedded JSON whose slashes are escaped (what PHP's json_encode emits)
 }
 
-type c19Counts struct{ png, page, embedded int }
+type c19Counts struct{ png, page, embedded, escaped int }
 
 // c19Value builds a JSON value whose shape and leaves are chosen symbolically and counts the URLs planted in it.
 func c19Value(depth int, name string, cnt *c19Counts) interface{} {
@@ -96,6 +97,8 @@ func c19Value(depth int, name string, cnt *c19Counts) interface{} {
 			cnt.page++
 		case 4:
 			cnt.embedded++
+		case 5:
+			cnt.escaped++
 		}
 		return c19Leaves[k]
 	case 1:
@@ -125,11 +128,12 @@ func c19Width(depth int) int {
 
 func c19JSON(depth int) {
 	verifmodel.JSONEmbedded[`["http://e.f/y"]`] = []interface{}{"http://e.f/y"}
+	verifmodel.JSONEmbedded[c19Leaves[5]] = map[string]interface{}{"u": "http://g.h/z"}
 	var cnt c19Counts
 	v := c19Value(depth, "r", &cnt)
 	links := make([]string, 0)
 	findURLs(v, &links)
-	gotPng, gotPage, gotEmb := 0, 0, 0
+	gotPng, gotPage, gotEmb, gotEsc := 0, 0, 0, 0
 	for _, l := range links {
 		switch l {
 		case "http://a.b/x.png":
@@ -138,6 +142,8 @@ func c19JSON(depth int) {
 			gotPage++
 		case "http://e.f/y":
 			gotEmb++
+		case "http://g.h/z":
+			gotEsc++
 		default:
 			verifrt.Assert(false, "C19 JSON: only planted absolute URLs are discovered")
 		}
@@ -145,10 +151,13 @@ func c19JSON(depth int) {
 	if cnt.embedded > 0 {
 		verifrt.Cover("json-in-string")
 	}
+	if cnt.escaped > 0 {
+		verifrt.Cover("json-in-string-escaped")
+	}
 	if cnt.png+cnt.page > 1 {
 		verifrt.Cover("several-urls")
 	}
-	verifrt.Assert(gotPng == cnt.png && gotPage == cnt.page && gotEmb == cnt.embedded, "C19 JSON: every absolute URL at any depth is discovered exactly once")
+	verifrt.Assert(gotPng == cnt.png && gotPage == cnt.page && gotEmb == cnt.embedded && gotEsc == cnt.escaped, "C19 JSON: every absolute URL at any depth is discovered exactly once")
 	// the asset/outlink split
 	for _, l := range links {
 		verifrt.Assert(hasFileExtension(l) == (l == "http://a.b/x.png"), "C19 JSON: URLs with a file extension are assets, the others outlinks")
